@@ -213,7 +213,12 @@ class HierDictDocument(DictDocument):
         else:
             inst = self._parse(cls_attrs, inst)
 
-            if issubclass(cls, (Any, AnyDict)):
+            if issubclass(cls, AnyDict):
+                if not (inst is None or isinstance(inst, dict)):
+                    raise ValidationError([key, inst])
+                retval = inst
+
+            elif issubclass(cls, Any):
                 retval = inst
 
             elif issubclass(cls, ComplexModelBase):
